@@ -23,6 +23,8 @@ Next == /\ ~done /\ done' = TRUE /\ p' = p /\ q' = q /\ r' \in P
            IN PrintT(<<"CASE", ToJson([op |-> "c18_conv", p |-> p, q |-> q, r |-> r',
                   rect_min |-> lo, rect_max |-> hi,
                   rect_to_polygon |-> RectToPolygon(lo, hi), rect_into_polygon |-> RectIntoPolygon(lo, hi),
-                  tri_to_polygon |-> LET t == TriStored(p, q, r') IN <<t[1], t[2], t[3], t[1]>>, line_to_linestring |-> <<p, q>>])>>)
+                  tri_to_polygon |-> LET t == TriStored(p, q, r') IN <<t[1], t[2], t[3], t[1]>>, line_to_linestring |-> <<p, q>>,
+                  \* the tuple constructor and From<[_; 3]> store the vertices as given (clockwise too); conversions keep that order
+                  tri_raw |-> <<p, q, r', p>>, tri_raw_flipped |-> <<p, r', q, p>>])>>)
 Spec == Init /\ [][Next]_<<p, q, r, done>>
 =============================================================================
